@@ -61,7 +61,7 @@ class C11:
         return _strategy()
 
     def examples(self, tier):
-        return 2500 if tier == "quick" else 60000
+        return 2500 if tier == "quick" else 180000
 
     def enumerate(self, tier):
         return []
